@@ -33,7 +33,7 @@ def cases(tier, seed):
     for kind in ("isv", "jfa"):
         for u in range(len(c11.UBMS)):
             for sub in subs:
-                for sl in range(6):
+                for sl in range(7):
                     out.append(dict(kind=kind, ubm=u, sub=sub, sl=sl, fac=0, probe=0, seed=seed, tier=tier))
     return out
 
@@ -55,8 +55,12 @@ def _stats(ubm, sl, s, o):
         sts = [ubm.acc_stats(f) for f in frames[:2]]
         for st in sts:
             st.n[-1], st.sum_px[-1], st.sum_pxx[-1] = 0.0, 0.0, 0.0
-    else:
+    elif sl == 5:
         sts = [ubm.acc_stats(frames[2]), ubm.acc_stats(frames[2]), ubm.acc_stats(frames[3])]
+    else:
+        from bob.learn.em import GMMStats
+
+        sts = [ubm.acc_stats(frames[0]), GMMStats(C, D), ubm.acc_stats(frames[1]), ubm.acc_stats(frames[3])]  # a session without frames in the middle
     return sts
 
 
